@@ -13,6 +13,8 @@ import (
 	"sort"
 	"strconv"
 	"strings"
+	"unicode"
+	"unicode/utf8"
 
 	"github.com/elastic/go-libaudit/v2/rule"
 	"pgregory.net/rapid"
@@ -422,7 +424,9 @@ func (s Spec) Expect(b []byte) error {
 			}
 			k = append(k, x...)
 		}
-		want = append(want, triple{uapi.A("AUDIT_FILTERKEY"), uapi.A("AUDIT_EQUAL"), uint32(len(k)), k, true})
+		if len(k) > 0 { // an empty key (-k '') is no key at all, as with auditctl
+			want = append(want, triple{uapi.A("AUDIT_FILTERKEY"), uapi.A("AUDIT_EQUAL"), uint32(len(k)), k, true})
+		}
 	}
 	if w.Flags != wantFlags {
 		return fmt.Errorf("flags word = %#x, want %#x (list %s, prepend=%v)", w.Flags, wantFlags, s.List, s.Prepend)
@@ -517,6 +521,21 @@ var strictByte = rapid.OneOf(
 	rapid.ByteRange(0x21, 0x7e), rapid.ByteRange(0x80, 0xff), rapid.ByteRange(0x02, 0x08),
 ).Filter(func(b byte) bool { return b != '\'' && b != '"' && b != '\\' })
 
+// noUnicodeSpace: two or three of the drawn bytes can happen to spell a white-space character beyond ASCII
+// (U+0085, U+00A0, U+2028 ...); white space is outside the C07 domain, so such a sequence is overwritten.
+func noUnicodeSpace(b []byte) []byte {
+	for i := 0; i < len(b); {
+		r, n := utf8.DecodeRune(b[i:])
+		if r != utf8.RuneError && unicode.IsSpace(r) {
+			for j := i; j < i+n; j++ {
+				b[j] = 'u'
+			}
+		}
+		i += n
+	}
+	return b
+}
+
 func genString(t *rapid.T, label string, o Opts, max int) []byte {
 	if max <= 0 {
 		max = 30
@@ -524,7 +543,7 @@ func genString(t *rapid.T, label string, o Opts, max int) []byte {
 	var s string
 	if o.Strict {
 		// everything the C07 domain admits: any byte but white space, the quote characters ' " \ and NUL
-		b := rapid.SliceOfN(strictByte, 1, max).Draw(t, label)
+		b := noUnicodeSpace(rapid.SliceOfN(strictByte, 1, max).Draw(t, label))
 		if strings.IndexByte("=<>&!", b[0]) >= 0 {
 			b[0] = 'x' // a leading operator character is the business of the "ambiguous" shape below
 		}
@@ -631,6 +650,9 @@ func GenFilter(t *rapid.T, list string, o Opts, haveArch *string) (Filter, strin
 			}
 			if len(s) > limit {
 				invalid = "string value longer than the library's limit"
+			}
+			if o.Strict {
+				s = noUnicodeSpace(s) // the seam of two copies can spell one
 			}
 		}
 		if o.Strict && !o.FlagsRoute && (op == "<" || op == ">" || op == "&") && rapid.IntRange(0, 7).Draw(t, "ambiguous") == 0 {
@@ -867,18 +889,21 @@ func genKeys(t *rapid.T, o Opts) [][]byte {
 		var k string
 		if o.Strict && !o.FlagsRoute {
 			// struct route: a key may contain commas (only the -k flag of the text form splits at commas)
-			k = string(rapid.SliceOfN(strictByte, 1, 12).Draw(t, "key"))
+			k = string(noUnicodeSpace(rapid.SliceOfN(strictByte, 1, 12).Draw(t, "key")))
 		} else if o.Strict {
-			k = string(rapid.SliceOfN(strictByte.Filter(func(b byte) bool { return b != ',' }), 1, 12).Draw(t, "key"))
+			k = string(noUnicodeSpace(rapid.SliceOfN(strictByte.Filter(func(b byte) bool { return b != ',' }), 1, 12).Draw(t, "key")))
 		} else if o.FlagsRoute {
 			k = rapid.StringMatching(`[A-Za-z0-9_.:=/@%+-]{1,12}`).Draw(t, "key")
 		} else {
 			k = string(genString(t, "key", o, 12))
 			k = strings.ReplaceAll(k, "\x01", "_")
 		}
+		if rapid.IntRange(0, 15).Draw(t, "emptykey") == 0 {
+			k = "" // -k ''
+		}
 		keys = append(keys, []byte(k))
 	}
-	if len(keys) > 0 && rapid.IntRange(0, 9).Draw(t, "longkeys") == 0 {
+	if len(keys) > 0 && len(keys[len(keys)-1]) > 0 && rapid.IntRange(0, 9).Draw(t, "longkeys") == 0 {
 		// the keys of a rule travel joined by 0x01 in one field of at most 256 bytes
 		joined := len(keys) - 1
 		for _, k := range keys {
